@@ -219,3 +219,151 @@ Example C14_nonvacuous :
   (match define T [] default_guards genv0 (stmt0 "Ab" [n_Abstract] [(nm "a", SDecl f_int false None None)]) with
    | Ok k => instantiable k | Raise x => Raise x end) = Raise TypeError.
 Proof. repeat split; vm_compute; reflexivity. Qed.
+
+(* ======================================================================================================
+   the tie to the source of class definition (generated layer), appended from the contributor's file *)
+(* Property C14 -- the tie to typedpy's CURRENT source of the class-definition code (ready to append to Props/C14.v).
+   Only re-exports: each theorem is Struct/DefineSrcProofs.v's lemma about the GENERATED translation
+   (Gen/DefineSrc.v, rewritten from typedpy/structures/structures.py on every run) and the hand-written model
+   Struct/Define.v on which the C14 theorems are proved.  How a model-level description is seen as the
+   Python-level arguments is defined in Struct/DefineSrcProofs.v (v_names, v_params, v_keys, v_sig, genv_heap,
+   members_heap, ...).  [so] is the iteration order of sets, [X] the oracle for calls the translation does not
+   look into. *)
+From Coq Require Import ZArith NArith String List Bool Permutation. Import ListNotations.
+From TP Require Import Base.PyVal Base.PyOps Base.PyObj Base.PyOpsDerive Base.PyOpsDefine
+     Fields.FieldAst Fields.SetChain Struct.Define Gen.DefineSrc Struct.DefineSrcProofs.
+
+(* make_signature = Define.make_signature: the same optional parameters, the same **kwargs, the required
+   parameters up to the order in which a set iterates, ValueError (duplicate parameter) by both or by none *)
+Theorem C14_src_make_signature : forall so X h names required addl bp consts,
+    so_ok so -> sig_inputs_ok names bp = true ->
+    sig_agrees addl
+      (DefineSrc.make_signature so X h (v_names names) (v_names required) (PBool addl) (v_params bp)
+                                (v_names (bases_required bp)) (v_keys consts))
+      (Define.make_signature names required bp consts).
+Proof. exact make_signature_src. Qed.
+
+(* get_base_info = base_info, whenever the model does not decline *)
+Theorem C14_src_get_base_info : forall so X gd g extra bases r,
+    bases_ok g extra bases = true ->
+    base_info gd g bases [] false = r -> r <> Raise Unmodelled ->
+    DefineSrc.get_base_info so X (genv_heap gd g extra) (PTuple (v_refs bases)) =
+    match r with
+    | Ok bp => Ok (PTuple [v_params bp; v_names (bases_required bp)])
+    | Raise x => Raise x
+    end.
+Proof. exact get_base_info_src. Qed.
+
+(* _check_for_final_violations(mro) raises TypeError exactly when final_violation holds *)
+Theorem C14_src_check_final : forall so X gd g extra name mro_tail,
+    DefineSrc.check_for_final_violations so X (genv_heap gd g extra) (PList (v_refs (name :: mro_tail))) =
+    if final_violation g mro_tail then Raise TypeError else Ok PNone.
+Proof. exact check_final_src. Qed.
+
+(* _block_invalid_consts raises ValueError exactly when some non-field attribute of the statement is invalid_const *)
+Theorem C14_src_block_invalid_consts : forall so X h s ents ann,
+    annotations_are h ents ann ->
+    (forall n u, In (n, u) (s_attrs s) ->
+       str_in n (map fst ann) = false /\ exists v, In (n, v) ents /\ uval_matches h u v = true) ->
+    (forall n v, In (n, v) ents -> bad_entry h (map fst ann) (n, v) = true ->
+       exists u, In (n, u) (s_attrs s) /\ uval_matches h u v = true) ->
+    DefineSrc.block_invalid_consts so X h (PDict (skeys ents)) =
+    if existsb invalid_const (s_attrs s) then Raise ValueError else Ok PNone.
+Proof. exact block_invalid_consts_src. Qed.
+
+(* _apply_default_and_update_required_not_to_include_fields_with_defaults = apply_eq_default on every member,
+   then own_required (as a set) *)
+Theorem C14_src_apply_default : forall re_match e so X base s defs ents pre,
+    so_ok so -> NoDup (map fst pre) -> defaults_normal pre = true ->
+    forallb (member_ok defs) pre = true -> forallb (fun nd => eqd_plain (snd nd)) defs = true ->
+    (forall n, base (fobj n) n__default = None) ->
+    (forall n, In n (map fst pre) -> alist_get ents n = Some (fld_ref n)) ->
+    alist_get ents (s2p "_required") = option_map v_names (s_required s) ->
+    alist_get ents (s2p "_optional") = option_map v_names (s_optional s) ->
+    (forall hh n fo v, alist_get pre n = Some (MField fo) ->
+       X (s2p "._try_default_value") hh [fld_ref n; v] =
+       match vset re_match e (fo_field fo) v with
+       | Ok _ => Ok (hh, PNone, [fld_ref n; v])
+       | Raise x => Raise x
+       end) ->
+    match mapM (apply_member re_match e defs) pre with
+    | Ok own =>
+        exists h' req, Permutation req (own_required s own) /\ heap_eq h' (members_heap base own) /\
+          DefineSrc.apply_default_and_update_required so X (members_heap base pre) (PDict (skeys ents)) (v_defs defs)
+                                                       (v_names (map fst pre)) =
+          Ok (h', PNone, PDict (skeys (alist_set ents (s2p "_required") (v_names req))))
+    | Raise x =>
+        DefineSrc.apply_default_and_update_required so X (members_heap base pre) (PDict (skeys ents)) (v_defs defs)
+                                                     (v_names (map fst pre)) = Raise x
+    end.
+Proof. exact apply_default_src. Qed.
+
+(* ... and that second phase is the model's build_members once the Field constructors of the class body succeeded *)
+Theorem C14_src_build_members : forall re_match e l pre,
+    NoDup (map fst l) -> mapM (init_member re_match e) l = Ok pre ->
+    build_members re_match e l = mapM (apply_member re_match e (eq_defs l)) pre.
+Proof. exact build_members_two_phases. Qed.
+
+(* _get_all_fields_by_name(cls): the member objects in the order and with the overriding of fields_of_mro *)
+Theorem C14_src_get_all_fields_by_name : forall so X gd g extra c kc,
+    find_klass g c = Some kc -> mro_plain g (k_mro kc) = true ->
+    DefineSrc.get_all_fields_by_name so X (genv_heap gd g extra) (ref c) =
+    Ok (PDict (skeys (v_fields_of_mro g (k_mro kc)))).
+Proof. exact get_all_fields_by_name_src. Qed.
+
+Theorem C14_src_fields_of_mro : forall g mro,
+    fields_of_mro g mro = mro_fold (fun _ nm => snd nm) g mro /\
+    map fst (v_fields_of_mro g mro) = map fst (fields_of_mro g mro).
+Proof. exact fields_of_mro_names. Qed.
+
+(* _instantiate_fields_if_needed leaves a class dict of Field / Constant objects and plain attributes alone *)
+Theorem C14_src_instantiate_frame : forall so X h ents defs,
+    (forall nv, In nv ents -> entry_left_alone X h nv) ->
+    DefineSrc.instantiate_fields_if_needed so X h (PDict (skeys ents)) defs = Ok (h, PNone, PDict (skeys ents)).
+Proof. exact instantiate_frame_src. Qed.
+
+(* StructMeta.__new__, statement by statement: the field-name check ... *)
+Theorem C14_src_new_field_names : forall so X ents names h,
+    (forall n, In n names -> exists o, alist_get ents n = Some (ref o)) ->
+    match StructMeta_new__for_field_name so X h (PDict (skeys ents)) (v_names names) with
+    | Ok h' => existsb bad_field_name names = false /\ (forall o a, a <> s2p "_name" -> h' o a = h o a)
+    | Raise x => x = ValueError /\ existsb bad_field_name names = true
+    end.
+Proof. exact new_field_names_src. Qed.
+
+(* ... the _optional check ... *)
+Theorem C14_src_new_optional_check : forall so X h breq required optional,
+    StructMeta_new__for_f so X h (v_names breq) (v_names required) (v_names optional) =
+    if existsb (fun f => str_in f required || str_in f breq) optional then Raise ValueError else Ok tt.
+Proof. exact new_optional_check_src. Qed.
+
+(* ... and the class attribute _required *)
+Theorem C14_src_new_required_attr : forall so X h c breq required,
+    so_ok so ->
+    exists req, Permutation req (dedup_str (breq ++ required)) /\
+      StructMeta_new__call_setattr_REQUIRED_FIELDS so X h (v_names breq) (ref c) (v_names required) =
+      Ok (heap_set h c (s2p "_required") (v_names req)).
+Proof. exact new_required_attr_src. Qed.
+
+Theorem C14_src_new_required : forall so X h ents d v,
+    alist_get ents (s2p "_required") = Some v ->
+    StructMeta_new__set_required so X h (PDict (skeys ents)) d = Ok v.
+Proof. exact new_required_src. Qed.
+
+Print Assumptions C14_src_make_signature.
+Print Assumptions C14_src_get_base_info.
+Print Assumptions C14_src_check_final.
+Print Assumptions C14_src_block_invalid_consts.
+Print Assumptions C14_src_apply_default.
+Print Assumptions C14_src_build_members.
+Print Assumptions C14_src_get_all_fields_by_name.
+Print Assumptions C14_src_fields_of_mro.
+Print Assumptions C14_src_instantiate_frame.
+Print Assumptions C14_src_new_field_names.
+Print Assumptions C14_src_new_optional_check.
+Print Assumptions C14_src_new_required_attr.
+Print Assumptions C14_src_new_required.
+
+(* the side conditions are satisfiable and the generated functions run: Struct/DefineSrcProofs.v
+   ex_make_signature, ex_get_base_info, ex_block_invalid_consts, ex_apply_default, ex_apply_default_oracle,
+   ex_new_statements *)
